@@ -129,4 +129,95 @@ def vspec : Shapes → List VOp → Shapes × List (Option Shapes)
     let (v'', outs) := vspec v' os
     (v'', out :: outs)
 
+/-! ### decoded parts in general: cache-if-nil reader, render-if-loaded writer
+
+Every remaining writer of `writeToZip` (calcChain, comments, content types, drawings, volatile
+dependencies, relationships, shared strings, styles, theme, and the workbook) has the shape
+`if loaded != nil [&& guard] { Pkg[path] = marshal(loaded) }` over a singleton or over every
+entry of a map (`Facts.C02.writerShapes`), and the matching reader decodes the part only when
+nothing is loaded (`Facts.C02.readerCaches`).  XML marshalling is a parameter (`Codec`). -/
+
+structure Codec (α β : Type) where
+  enc : α → β
+  dec : β → α
+
+/-- the round-trip law of the part's XML binding, needed only where a writer drops what it rendered -/
+def Codec.RoundTrip {α β : Type} (c : Codec α β) : Prop := ∀ a, c.dec (c.enc a) = a
+
+/-- one decoded part: `f.X` (or `f.X[path]`) and `File.Pkg[path]` -/
+structure Slot (α β : Type) where
+  loaded : Option α
+  part : Option β
+
+/-- `xReader`: what is loaded, else decode the part (or a fresh value) and keep it loaded -/
+def Slot.read {α β : Type} (c : Codec α β) (zero : α) (s : Slot α β) : Slot α β × α :=
+  match s.loaded with
+  | some a => (s, a)
+  | none =>
+    let a := match s.part with
+      | some b => c.dec b
+      | none => zero
+    (⟨some a, s.part⟩, a)
+
+/-- what every reader and getter is a function of -/
+def Slot.view {α β : Type} (c : Codec α β) (zero : α) (s : Slot α β) : α := (s.read c zero).2
+
+/-- `xWriter`: guard `g` (e.g. `f.CalcChain.C != nil`); `consumes`: the writer clears the loaded value -/
+def Slot.write {α β : Type} (c : Codec α β) (g : α → Bool) (consumes : Bool) (s : Slot α β) : Slot α β :=
+  match s.loaded with
+  | some a => if g a then ⟨if consumes then none else some a, some (c.enc a)⟩ else s
+  | none => s
+
+/-- mutation through the reader: `x, _ := f.xReader(); mutate x` -/
+def Slot.update {α β : Type} (c : Codec α β) (zero : α) (f : α → α) (s : Slot α β) : Slot α β :=
+  let (s', a) := s.read c zero
+  ⟨some (f a), s'.part⟩
+
+inductive SOp (α : Type) where
+  | update (f : α → α)
+  | read
+  | save
+
+def sstep {α β : Type} (c : Codec α β) (zero : α) (g : α → Bool) (consumes : Bool)
+    (s : Slot α β) : SOp α → Slot α β × Option α
+  | .update f => (s.update c zero f, none)
+  | .read => let (s', a) := s.read c zero; (s', some a)
+  | .save => (s.write c g consumes, none)
+
+def srun {α β : Type} (c : Codec α β) (zero : α) (g : α → Bool) (consumes : Bool) :
+    Slot α β → List (SOp α) → Slot α β × List (Option α)
+  | s, [] => (s, [])
+  | s, o :: os =>
+    let (s', out) := sstep c zero g consumes s o
+    let (s'', outs) := srun c zero g consumes s' os
+    (s'', out :: outs)
+
+/-- specification: the part is a value; saving does nothing -/
+def sspecStep {α : Type} (a : α) : SOp α → α × Option α
+  | .update f => (f a, none)
+  | .read => (a, some a)
+  | .save => (a, none)
+
+def sspec {α : Type} : α → List (SOp α) → α × List (Option α)
+  | a, [] => (a, [])
+  | a, o :: os =>
+    let (a', out) := sspecStep a o
+    let (a'', outs) := sspec a' os
+    (a'', out :: outs)
+
+/-- does the code clear the loaded state the writer renders from? (from `writerShapes` and `writerClears`) -/
+def writerConsumes (name : String) : Bool :=
+  match Facts.C02.writerShapes.find? (fun p => p.1 == name), Facts.C02.writerClears.find? (fun p => p.1 == name) with
+  | some (_, kind, subj), some (_, clears) =>
+    clears.any (fun c =>
+      if kind == "map" then c == "delete " ++ subj
+      else if kind == "syncmap" then c == subj ++ ".Delete"
+      else c == subj ++ "=nil")
+  | _, _ => true
+
+/-- the package: one slot per writer of `writeToZip`, saved by running every writer -/
+def savePkg {α β : Type} (c : Codec α β) (g : α → Bool) : List Bool → List (Slot α β) → List (Slot α β)
+  | f :: fs, s :: ss => s.write c g f :: savePkg c g fs ss
+  | _, ss => ss
+
 end XlModel.SaveWriters
